@@ -268,9 +268,9 @@ func (u *Unmarshaler) fillSliceValue(slice reflect.Value, index int,
 	}
 }
 
-func (u *Unmarshaler) fillSliceWithDefault(derefedType reflect.Type, value reflect.Value,
+func (u *Unmarshaler) fillSliceWithDefault(fieldType reflect.Type, value reflect.Value,
 	defaultValue, fullName string) error {
-	baseFieldType := Deref(derefedType.Elem())
+	baseFieldType := Deref(Deref(fieldType).Elem())
 	baseFieldKind := baseFieldType.Kind()
 	defaultCacheLock.Lock()
 	slice, ok := defaultCache[defaultValue]
@@ -287,7 +287,7 @@ func (u *Unmarshaler) fillSliceWithDefault(derefedType reflect.Type, value refle
 		defaultCacheLock.Unlock()
 	}
 
-	return u.fillSlice(derefedType, value, slice, fullName)
+	return u.fillSlice(fieldType, value, slice, fullName)
 }
 
 func (u *Unmarshaler) fillStructElement(baseType reflect.Type, target reflect.Value,
@@ -934,7 +934,7 @@ func (u *Unmarshaler) processNamedFieldWithoutValue(fieldType reflect.Type, valu
 
 		switch fieldKind {
 		case reflect.Array, reflect.Slice:
-			return u.fillSliceWithDefault(derefedType, value, defaultValue, fullName)
+			return u.fillSliceWithDefault(fieldType, value, defaultValue, fullName)
 		default:
 			return setValueFromString(fieldKind, value, defaultValue)
 		}
